@@ -62,6 +62,24 @@ def run(v, tier, seed, replay):
             tls_fails.append("the thread-local teardown scenario reported %d of 4 twins (process aborted in a destructor?)" % tls_seen)
     by = {d["id"]: d for d in out}
     shapes = {}
+    # two calls polled alternately on one thread: same results and side effects as the plain twins, two spans per call
+    # position (one per poll with enter_on_poll), each a child of the caller's local parent
+    for c in cases:
+        d = by.get(c.id + "-il")
+        if d is None:
+            continue
+        _, _, name, props, nsp = macrogen.expected(c)
+        if d["plain"] != d["traced"] or d["plain"] != d["bare"]:
+            fails.append((c, "two interleaved calls of the annotated function returned/panicked %r, the plain twins %r" % (d["traced"], d["plain"])))
+        elif d["plainlog"] != d["tracedlog"] or d["plainlog"] != d["barelog"]:
+            fails.append((c, "interleaved calls: side effects differ: annotated %r, plain %r" % (d["tracedlog"], d["plainlog"])))
+        if d["barerecs"]:
+            fails.append((c, "interleaved calls: a span was recorded without a local parent: %r" % d["barerecs"]))
+        if not d["plain"].startswith("panic") and len(d["recs"]) != 2 * nsp:
+            fails.append((c, "interleaved calls: %d spans recorded for two calls, expected %d" % (len(d["recs"]), 2 * nsp)))
+        for (rn, par, rp) in d["recs"]:
+            if par != "root":
+                fails.append((c, "interleaved calls: span %r is not a child of the caller's local parent (it was recorded under the other call's span)" % rn))
     for c in cases:
         shapes[c.shape + "/" + c.attr] = shapes.get(c.shape + "/" + c.attr, 0) + 1
         d = by.get(c.id)
